@@ -8,9 +8,12 @@ like files (`d.py/`, `e.js/`).  The same product is placed under several compone
 directories (inside the project root, two levels below it, a directory whose own name
 starts with `_`, a directory whose name contains glob metacharacters next to a decoy that
 the unescaped name would match) and under the `components/` / `ui/widgets/` directories
-of two generated apps (one a nested package).  For every way of configuring them
-(COMPONENTS.dirs as str / Path / tuple / several / with a missing directory / default,
-legacy STATICFILES_DIRS as str and `(prefix, path)`, app_dirs default and custom) and every
+of two generated apps (one a nested package).  For every element of the product
+  COMPONENTS.dirs {unset, [], [A], [A,B], [Path(A)], [(prefix,B)], [unnormalised A, A], [B, missing], [_under], [comp[1]]}
+  x STATICFILES_DIRS {[], [A], [(prefix,A), B]}  x INSTALLED_APPS {no app, one app, two apps incl. the nested one}
+  x COMPONENTS.app_dirs {default, ["components","ui/widgets"], []}  x BASE_DIR as {str, Path}
+(the effective directories follow the documented rule: dirs if set, else non-empty
+STATICFILES_DIRS, else BASE_DIR/components, plus `<app>/<app_dir>` where it exists) and every
 requested suffix, `get_component_files(suffix)` is called on the real code and compared,
 as a multiset, with the reference filter of the statement applied to an `os.walk` of the
 configured directories:
